@@ -4,7 +4,8 @@ import pool_common as pc
 pc.install(globals(), "C12", "C12", "join",
     rule=("pipe.Join over 0..4 inputs with disjoint value ranges (input i carries 100*i+j) x input capacities 0..2 x inputs of length 0..4 x "
           "random interleavings of sends on the different inputs, closes (also early closes) and receives from VERIF_SEED, drained to completion. "
-          "0..7 inputs; the slice spread into the variadic parameter is overwritten as soon as Join has returned. Distinct by full observed trace; non-trivial when a value was delivered"),
+          "0..7 inputs, joins of 17, 18, 24 and 40 inputs of which all but one end at once, one producer 8..15 elements ahead of the consumer; "
+          "free-running stress under the real scheduler plus a short pass under the race detector; the slice spread into the variadic parameter is overwritten as soon as Join has returned. Distinct by full observed trace; non-trivial when a value was delivered"),
     claim={
         "text": "Theorems proved by the Coq kernel for every number of inputs, capacities and interleaving: the output is an interleaving of prefixes of the inputs (per-input order, nothing duplicated or invented), it closes only after every input is closed and drained (unless cancelled), and it does close then; with no input it closes immediately. No input is starved by another one, whatever the arrival order: whenever the stage is at rest each input's goroutine has returned (input closed and drained), or is parked on an empty open input whose next send is accepted at once (even unbuffered) and forwarded, or holds one element that only a full output keeps back. Tied to the code by trace acceptance.",
         "design_ref": "DESIGN.md 3/C12",
